@@ -80,3 +80,55 @@ func zzC20aTicker() {
 }
 
 func zzDur(label string) time.Duration { return time.Duration(vf.I64(label)) }
+
+// zzPolicyFacts reads what a configured policy promises: whether it cuts at this size, and its
+// interval (0 = no interval).
+func zzPolicyFacts(p FlushPolicy, size uint32) (bool, time.Duration) {
+	switch q := p.(type) {
+	case *flushPolicyIntervalOnly:
+		return p.IsFlush(size), q.Interval
+	case *flushPolicyIntervalOrBufferSize:
+		return p.IsFlush(size), q.IntervalPolicy.Interval
+	}
+	return p.IsFlush(size), 0
+}
+
+// C20.j: the policy options build per-stream policies: configuring stream B (or any later stream)
+// never changes what stream A's policy promises, nor the defaults a third stream gets.
+func zzC20jPolicyOptionsIsolated() {
+	size := vf.U32("buffered.size")
+	mk := func(l string) (UpstreamOption, func(uint32) bool, time.Duration) {
+		iv := time.Duration(vf.I64(l + ".interval"))
+		vf.Assume(iv > 0)
+		th := vf.U32(l + ".threshold")
+		switch vf.Choose(l+".policy", 5) {
+		case 0:
+			return WithUpstreamFlushPolicyIntervalOrBufferSize(iv, th), func(s uint32) bool { return s > th }, iv
+		case 1:
+			return WithUpstreamFlushPolicyIntervalOnly(iv), func(uint32) bool { return false }, iv
+		case 2:
+			return WithUpstreamFlushPolicyBufferSizeOnly(th), func(s uint32) bool { return s > th }, 0
+		case 3:
+			return WithUpstreamFlushPolicyImmediately(), func(uint32) bool { return true }, 0
+		}
+		return WithUpstreamFlushPolicyNone(), func(uint32) bool { return false }, 0
+	}
+	optA, cutA, ivA := mk("a")
+	optB, cutB, ivB := mk("b")
+	// what a stream without options gets, observed before anything was configured
+	d0 := defaultUpstreamConfig
+	defCut, defIv := zzPolicyFacts(d0.FlushPolicy, size)
+	// OpenUpstream copies the default configuration and applies the options to the copy
+	confA := defaultUpstreamConfig
+	optA(&confA)
+	confB := defaultUpstreamConfig
+	optB(&confB)
+	confC := defaultUpstreamConfig
+	gotA, gotIvA := zzPolicyFacts(confA.FlushPolicy, size)
+	gotB, gotIvB := zzPolicyFacts(confB.FlushPolicy, size)
+	gotC, gotIvC := zzPolicyFacts(confC.FlushPolicy, size)
+	vf.Assert("stream-a-keeps-its-own-policy", gotA == cutA(size) && gotIvA == ivA)
+	vf.Assert("stream-b-gets-its-own-policy", gotB == cutB(size) && gotIvB == ivB)
+	vf.Assert("defaults-unchanged-for-later-streams", gotC == defCut && gotIvC == defIv)
+	vf.Reach("end")
+}
